@@ -19,7 +19,7 @@ func init() {
 		Rule: "one run = one generated application with graceful end nodes (code ends right after HALT), abnormal end nodes (code ends without HALT) and external functions that set TERMINATE, at depths 0..6, client flags set before the end + a history that keeps sending requests after the end, in persisted operation (fresh engine per request) on every backend; " +
 			"graceful: the ending request delivers output and reports stop, the stored session then has an empty symbol cache and unchanged client flags, and the next request runs the entry node from its first instruction; abnormal/TERMINATE: the request reports stop and every later request reports stop, writes nothing and runs nothing until the harness clears the flag in the stored session; " +
 			"non-trivial = at least one request served after a session end; distinct = distinct sequences of (end kind, depth, requests after the end)",
-		Runs:       map[string]int{"quick": 30000, "thorough": 3000000},
+		Runs:       map[string]int{"quick": 100000, "thorough": 3000000},
 		MaxSeconds: map[string]int{"quick": 40, "thorough": 900},
 		Run:        runC20,
 		Assumptions: []string{
